@@ -62,8 +62,12 @@ SameValue(X, Y) ==
   /\ IF X.kind = "f" \/ Y.kind = "f"
      THEN /\ X.kind = Y.kind
           /\ \A k \in 1..Len(X.data) :
+               \/ X.data[k] = Y.data[k]
                \/ (QIsNaN(X.data[k]) /\ QIsNaN(Y.data[k]))
-               \/ (X.data[k][2] > 0 /\ Y.data[k][2] > 0 /\ X.data[k][1] * Y.data[k][2] = Y.data[k][1] * X.data[k][2])
+               \* small rationals: cross-multiplication (guarded: TLC integers are 32-bit; fixed-point values with the
+               \* denominator 10^6 are only ever compared by the pair equality above)
+               \/ (X.data[k][2] > 0 /\ Y.data[k][2] > 0 /\ X.data[k][2] <= 5000 /\ Y.data[k][2] <= 5000
+                   /\ X.data[k][1] * Y.data[k][2] = Y.data[k][1] * X.data[k][2])
      ELSE X.data = Y.data
 SameKind(X, Y) == X.kind = Y.kind
 
@@ -155,6 +159,25 @@ EntryVerdict(c) ==
      ELSE IF rechunked # {} THEN "entry-point-changes-chunks:" \o E[first(rechunked)].entry
      ELSE IF retyped # {} THEN "entry-point-changes-dtype:" \o E[first(retyped)].entry
      ELSE IF ~SameValue(E[1].val, c.expect) THEN "ok-all-entry-points-agree-but-differ-from-the-denotation"
+     ELSE "ok"
+
+(***************************************************************************)
+(* History and configuration independence (C09).  c.expect: the denotation *)
+(* (a function of the program alone); c.obs: values of the collection      *)
+(* computed at various points of a process history under various planner   *)
+(* configurations.                                                         *)
+(***************************************************************************)
+HistoryVerdict(c) ==
+  LET raised == {j \in 1..Len(c.obs) : c.obs[j].val.kind = "raised"}
+      good == 1..Len(c.obs) \ raised
+      ref == IF "first" \in DOMAIN c THEN c.first ELSE c.obs[CHOOSE j \in good : \A q \in good : j <= q].val
+      wrong == {j \in good : ~SameValue(c.obs[j].val, ref) \/ ~SameKind(c.obs[j].val, ref)}
+      first(S) == c.obs[CHOOSE j \in S : \A q \in S : j <= q].how
+  IN IF good = {} THEN "ok-raises-always"
+     ELSE IF wrong # {} THEN "value-depends-on-history-or-configuration:" \o first(wrong)
+     ELSE IF raised # {} THEN "raises-depending-on-history-or-configuration:" \o first(raised)
+     \* all observations agree; whether they agree with NumPy is C01's question
+     ELSE IF ~SameValue(ref, c.expect) THEN "ok-all-observations-agree-but-differ-from-the-denotation"
      ELSE "ok"
 
 \* fused task provenance: for every output block, the set of (external input, block) pairs the fused
